@@ -61,8 +61,9 @@ class KernelSpace(Subspace):
 
     def __init__(self, name, alphabet, lo, hi, dtype="f8", mask_kind="none", nullcode=-1,
                  extra_groups=0, lifo=False, splits="all", seed=0, kernels=None, steps=(None,),
-                 real_pool=False):
+                 real_pool=False, footprint=False):
         self.name = name
+        self.footprint = footprint
         self.ws = W.WordSpace(alphabet, lo, hi)
         self.dtype = dtype
         self.mask_kind = mask_kind
@@ -83,7 +84,8 @@ class KernelSpace(Subspace):
         return dict(w=[list(s) for s in self.ws.at(i)], dtype=self.dtype, mask_kind=self.mask_kind,
                     nullcode=self.nullcode, extra_groups=self.extra_groups, lifo=self.lifo,
                     splits=self.splits, seed=self.seed, kernels=self.kernels,
-                    steps=list(self.steps), real_pool=self.real_pool)
+                    steps=list(self.steps), real_pool=self.real_pool,
+                    footprint=self.footprint)
 
     # -------------------------------------------------------------------------------------
     def run(self, case):
@@ -138,6 +140,8 @@ class KernelSpace(Subspace):
         # free-running pass: the library's own ThreadPoolExecutor (real OS threads, any completion order)
         seams.set(executor=None if case.get("real_pool") else sched.NAMESPACE)
         policies = (0, -1) if case["lifo"] else (0,)
+        fpr = bool(case.get("footprint")) and not case.get("real_pool")
+        sched.FOOTPRINT.reset(fpr)
         kernels = _kernels_for(dtype)
         if case.get("kernels"):
             kernels = [k for k in kernels if k in case["kernels"]]
@@ -198,6 +202,12 @@ class KernelSpace(Subspace):
                             res.fail("dtype", f"group_{kernel} {skind}={sarg}: result dtype {odt}, "
                                               f"expected {edt} for input {in_dt}")
         sched.set_schedule(sched.Schedule())
+        if fpr:
+            # the per-block task bodies must not write memory that another block's task can see
+            for msg in sorted(set(sched.FOOTPRINT.conflicts))[:3]:
+                res.fail("independence", msg)
+            res.extra = {"footprint_task_bodies_checked": sched.FOOTPRINT.tasks_checked}
+            sched.FOOTPRINT.reset(False)
         return res
 
 
@@ -228,6 +238,14 @@ def subspaces(tier, seed):
     sp.append(K_(f"boolmask-f8-full-n1to{2 if q else 3}", AFM, 1, 2 if q else 3, "f8", "bool",
                  seed=seed))
     sp.append(K_("boolmask-f8-A3-n3", W.A(G), 3, 3, "f8", "bool", seed=seed))
+    # task footprints (write-write conflicts between the per-block task bodies), every split and mask kind
+    sp.append(K_(f"footprint-boolmask-f8-A2-n{3 if q else 4}", W.A(2), 3 if q else 4, 3 if q else 4, "f8",
+                 "bool", lifo=True, seed=seed, footprint=True))
+    sp.append(K_("footprint-nomask-f8-n3", AF, 3, 3, "f8", "none", seed=seed, footprint=True))
+    if not q:
+        sp.append(K_("footprint-positions-f8-n3", AF2, 3, 3, "f8", "pos", splits="T12", seed=seed,
+                     footprint=True))
+        sp.append(K_("footprint-u1-n4", KN, 4, 4, "u1", "none", seed=seed, footprint=True))
     if q:
         sp.append(K_("boolmask-f8-A2-n4", W.A(2), 4, 4, "f8", "bool", seed=seed))
     else:
